@@ -2,5 +2,5 @@
 (* Placeholder: the check driver overwrites this module in the scratch copy *)
 (* with the abstract states visited by the generated histories.             *)
 EXTENDS Integers, TLC
-StateSeq == << [fields |-> {}, docs |-> <<>>] >>
+StateSeq == << [fields |-> {}, docs |-> <<>>, open |-> {}] >>
 =============================================================================
